@@ -875,6 +875,8 @@ def _call_ext(interp, ext, node, args, kwargs, st):
             b = args[1] if len(args) > 1 else Val()
             d = interp._unify_additive(a0, b, st, node, name)
             tags = frozenset(["mod2pi"]) if name in ("mod", "remainder", "fmod") and _is_2pi(b) else frozenset()
+            if name in ("add", "subtract", "mod", "fmod", "remainder") and ("polar-angle" in a0.tags or (name in ("add", "subtract") and "polar-angle" in b.tags)):
+                tags = tags | {"polar-angle"}            # a shifted / wrapped polar angle is still one
             out = fresh(d, tags=tags, kind=a0.kind if a0.kind in ("float", "int") and b.kind in ("float", "int") else "arr")
             if name in ("maximum", "minimum", "fmax", "fmin"):
                 cs = [c for c in (a0, b) if c.is_number_const()]
@@ -923,7 +925,7 @@ def _call_ext(interp, ext, node, args, kwargs, st):
                 tsym = Poly.atom(f"arctan2<{a0.sym!r};{b.sym!r}>")
             rng = (0 if _nonneg(a0) else -2, 2)
             interp.emit(st, "arc", node, fn=name, arg=a0, result_sym=tsym, range=rng)
-            return fresh(D0, sym=tsym, kind="float" if tsym is not None else "arr", tags=frozenset([("range",) + rng]))
+            return fresh(D0, sym=tsym, kind="float" if tsym is not None else "arr", tags=frozenset([("range",) + rng, "polar-angle"]))
         if name in ("where",):
             if len(args) == 1:
                 return Val(kind="tuple", elem=Val(dim=D0, kind="idx", deps=deps, born=t, tags=frozenset(["1d", "where-index"])), dim=D0,
